@@ -312,7 +312,10 @@ Definition get_all (h : heap) (js : list nat) : option (list tvec) :=
 Definition resolve (h : heap) (o : oref) : option operand :=
   match o with
   | AtVec j => option_map OVec (nth_error h j)
-  | AtTab js => option_map OTab (get_all h js)
+  | AtTab js => match get_all h js with                 (* the operand is Table([...]): rectangular or refused *)
+                | Some cs => match table_of cs with Ok cs' => Some (OTab cs') | Err _ => None end
+                | None => None
+                end
   | ASeq l => Some (OSeq l)
   | AScalar x => Some (OScalar x)
   end.
@@ -390,8 +393,8 @@ Definition safe_op (h : heap) (o : op) : bool :=
                                      | Some d => forallb (fun x => belongs (el_info x) d) l
                                      | None => true end
                          | None => true end
-  | OpRshift i (AtTab js) => match nth_error h i, get_all h js with
-                            | Some v, Some cs => same_lengths (v :: cs)
+  | OpRshift i (AtTab js) => match nth_error h i, resolve h (AtTab js) with
+                            | Some v, Some (OTab cs) => same_lengths (v :: cs)
                             | _, _ => true end
   | OpCast i t _ => match nth_error h i, target_kind t with
                     | Some v, Some _ => negb (has_vec_elt v)
